@@ -346,6 +346,8 @@ type JobResult struct {
 	Samples    []*Witness
 	Steps      int64
 	MaxDepth   int
+	KnownCount int
+	FreshCount int
 }
 
 type pathOutcome struct {
@@ -404,7 +406,7 @@ func (i *Interp) panicString(v value) string {
 }
 
 // Explore runs every feasible path of one job.
-func (i *Interp) Explore(job *Job, setup, run *ssa.Function, lim Limits, base []Decision, donate func([]Decision) bool) *JobResult {
+func (i *Interp) Explore(job *Job, setup, run *ssa.Function, lim Limits, base []Decision, donate func([]Decision) bool, isKnown func(*Violation) bool) *JobResult {
 	res := &JobResult{Job: job, Covers: map[string]int{}}
 	i.job = job
 	i.maxSteps = lim.MaxSteps
@@ -503,7 +505,17 @@ func (i *Interp) Explore(job *Job, setup, run *ssa.Function, lim Limits, base []
 		default:
 			res.Inconcl = append(res.Inconcl, out.kind+": "+out.msg+" at "+i.where())
 		}
-		res.Violations = append(res.Violations, ps.violations...)
+		for k := range ps.violations {
+			if isKnown != nil && isKnown(&ps.violations[k]) {
+				res.KnownCount++
+				if res.KnownCount > 3 {
+					continue // keep a few witnesses of known findings only
+				}
+			} else {
+				res.FreshCount++
+			}
+			res.Violations = append(res.Violations, ps.violations[k])
+		}
 		i.solver.Pop()
 		i.rollback(mark)
 
@@ -534,7 +546,7 @@ func (i *Interp) Explore(job *Job, setup, run *ssa.Function, lim Limits, base []
 			res.Inconcl = append(res.Inconcl, fmt.Sprintf("path budget %d exceeded", lim.MaxPaths))
 			break
 		}
-		if len(res.Violations) >= lim.MaxViolations {
+		if res.FreshCount >= lim.MaxViolations {
 			res.Inconcl = append(res.Inconcl, "stopped after max violations (exploration incomplete)")
 			break
 		}
